@@ -5,6 +5,7 @@ package props
 import (
 	"fmt"
 	"hash/fnv"
+	"strings"
 	"runtime"
 	"sync"
 	"sync/atomic"
@@ -28,7 +29,9 @@ func refBucket(msg string) uint32 {
 // c11Messages: a small alphabet with pre-computed colliding pairs.
 var c11Messages = func() []string {
 	long := "connection to upstream service timed out after the configured deadline; retrying with backoff #"
-	msgs := []string{"a", "b", "", "request failed", "\xff", "request failed: A", "request failed: B", long + "1", long + "2", "x" + long, "y" + long}
+	msgs := []string{"a", "b", "", "request failed", "\xff", "request failed: A", "request failed: B", long + "1", long + "2", "x" + long, "y" + long,
+		// non-ASCII and invalid UTF-8: the key is the message's BYTES ("\xff" and "\xfe" are different messages)
+		"\xfe", "\xff\xfe", "\xfe\xff", "é", "ü", "日本語", "日本誤", "e\u0301", "\xc3\x28", "\xed\xa0\x80"}
 	seen := map[uint32]string{}
 	for _, m := range msgs {
 		seen[refBucket(m)] = m
@@ -42,6 +45,19 @@ var c11Messages = func() []string {
 				msgs = append(msgs, prev)
 			}
 			found++
+		} else {
+			seen[refBucket(s)] = s
+		}
+	}
+	// colliding pairs among non-ASCII messages (a hash over runes instead of bytes separates them)
+	found = 0
+	for i := 0; found < 3; i++ {
+		s := fmt.Sprintf("сообщение-é-%d", i)
+		if prev, ok := seen[refBucket(s)]; ok && prev != s {
+			if strings.HasPrefix(prev, "сообщение") {
+				msgs = append(msgs, s, prev)
+				found++
+			}
 		} else {
 			seen[refBucket(s)] = s
 		}
